@@ -57,11 +57,11 @@ def _read_log(path):
     return recs
 
 
-def run_writer(d, scenario, payload, inject, slow_ms=0, strace_when=None, kill_after=None, model_s=0.0):
+def run_writer(d, scenario, payload, inject, slow_ms=0, strace_when=None, kill_after=None, model_s=0.0, fail_call=None):
     db = os.path.join(d, "store.sqlite")
     log = os.path.join(d, "side.log")
     spec = {"root": _root(), "db": db, "log": log, "scenario": scenario, "payload": payload, "inject": inject,
-            "slow_ms": slow_ms, "model_s": model_s}
+            "slow_ms": slow_ms, "model_s": model_s, "fail_call": fail_call}
     cmd = [PY, WRITER, json.dumps(spec)]
     if strace_when is not None:
         cmd = ["strace", "-f", "-o", os.path.join(d, "strace.out"), "-P", db, "-P", db + "-journal",
@@ -209,15 +209,15 @@ def _cache_put(key, val):
             pass
 
 
-def dry_run(scenario, payload, model_s=0.0):
-    key = ["dry", _root(), scenario, payload] + ([model_s] if model_s else [])
+def dry_run(scenario, payload, model_s=0.0, fail_call=None):
+    key = ["dry", _root(), scenario, payload] + ([model_s] if model_s else []) + (["fail", fail_call] if fail_call else [])
     hit, val = _cache_get(key)
     if hit:
         return val
     if True:
         d = tempfile.mkdtemp(prefix="c11dry-")
         try:
-            db, log, rc = run_writer(d, scenario, payload, None, model_s=model_s)
+            db, log, rc = run_writer(d, scenario, payload, None, model_s=model_s, fail_call=fail_call)
             recs = _read_log(log)
             counts = [r for r in recs if r["e"] == "COUNTS"]
             if rc != 0 or not counts:
@@ -271,20 +271,21 @@ def strace_points(scenario, payload):
 def check_point(case):
     sc, payload, inj = case["scenario"], case["payload"], case["inject"]
     ms = case.get("model_s") or 0.0
-    dry = dry_run(sc, payload, ms)
+    fc = case.get("fail_call")
+    dry = dry_run(sc, payload, ms, fc)
     d = tempfile.mkdtemp(prefix="c11-")
     try:
         kind = inj["kind"]
         where = "scenario %s/%s, crash %r" % (sc, payload, inj)
         if kind == "A":
             k = 1 + inj["k"] % dry["obj"]
-            db, log, rc = run_writer(d, sc, payload, {"kind": "A", "k": k}, model_s=ms)
+            db, log, rc = run_writer(d, sc, payload, {"kind": "A", "k": k}, model_s=ms, fail_call=fc)
             where = "scenario %s/%s%s, _exit in objective call %d of %d" % (
-                sc, payload, ", every model evaluation takes %g s on the (harness-owned) clock" % ms if ms else "", k,
-                dry["obj"])
+                sc, payload, (", every model evaluation takes %g s on the (harness-owned) clock" % ms if ms else "") + (
+                    ", objective call %d fails transiently" % fc if fc else ""), k, dry["obj"])
         elif kind == "B":
             j = 1 + inj["j"] % dry["sql"]
-            db, log, rc = run_writer(d, sc, payload, {"kind": "B", "j": j, "phase": inj["phase"]}, model_s=ms)
+            db, log, rc = run_writer(d, sc, payload, {"kind": "B", "j": j, "phase": inj["phase"]}, model_s=ms, fail_call=fc)
             where = "scenario %s/%s%s, _exit %s SQL event %d of %d" % (sc, payload, " (model %g s)" % ms if ms else "",
                                                                        inj["phase"], j, dry["sql"])
         elif kind == "F":
@@ -319,7 +320,7 @@ def check_point(case):
     died = not info["done"]
     nt = died and info["acks"] >= 1 and info["tries"] < dry["tries"] + (3 if sc == "parallel" else 0)
     return {"nt": nt, "classes": ["inj-" + kind, sc, payload, "died" if died else "survived",
-                                  "mid-history" if nt else "edge"] + (["slow-model-clock"] if ms else [])}
+                                  "mid-history" if nt else "edge"] + (["slow-model-clock"] if ms else []) + (["transient-failure"] if fc else [])}
 
 
 @st.composite
@@ -341,9 +342,17 @@ def points(draw):
         inj = {"kind": "D", "ms": draw(st.floats(0.0, 80.0))}
     case = {"scenario": draw(st.sampled_from(SCENARIOS)), "payload": draw(st.sampled_from(["small", "big"])),
             "inject": inj}
-    if kind in ("A", "B") and draw(st.integers(0, 2)) == 0:
-        # an expensive model: each evaluation takes 6 s (or 700 s, beyond the default time_out) on the harness-owned clock
-        case["model_s"] = draw(st.sampled_from([6.0, 6.0, 700.0]))
+    if kind in ("A", "B"):
+        extra = draw(st.sampled_from([None, None, "fail", "fail", "slow", "slow"]))
+        if extra == "fail":
+            # one objective call fails transiently (the design is re-sampled and retried); crash points of interest are
+            # the calls right after it
+            case["fail_call"] = draw(st.integers(1, 6))
+            if kind == "A":
+                inj["k"] = case["fail_call"] - 1 + draw(st.sampled_from([1, 1, 1, 2, 0]))
+        elif extra == "slow":
+            # an expensive model: each evaluation takes 6 s (or 700 s, beyond the default time_out) on the harness-owned clock
+            case["model_s"] = draw(st.sampled_from([6.0, 6.0, 700.0]))
     return case
 
 
@@ -371,6 +380,13 @@ def all_points(tier):
                 yield {"scenario": sc, "payload": "small", "inject": {"kind": "A", "k": k}, "model_s": ms}
             for j in range(dry["sql"]):
                 yield {"scenario": sc, "payload": "small", "inject": {"kind": "B", "j": j, "phase": "after"}, "model_s": ms}
+    for sc in ("serial", "nsga2"):
+        for fcall in (1, 2, 5):
+            dry = dry_run(sc, "small", 0.0, fcall)
+            for k in range(dry["obj"]):
+                yield {"scenario": sc, "payload": "small", "inject": {"kind": "A", "k": k}, "fail_call": fcall}
+            for j in range(dry["sql"]):
+                yield {"scenario": sc, "payload": "small", "inject": {"kind": "B", "j": j, "phase": "after"}, "fail_call": fcall}
     dry = dry_run("nsga2", "huge")
     for j in range(dry.get("fs", 0)):
         for ph in ("before", "after"):
